@@ -93,7 +93,14 @@ def press (cfg : LCfg) (d : Nat) (t : Nat) (c : Coord) (s : Sp) : Sp :=
       let dl := min s.deadline (t + max d 1)
       { s with deadline := dl, resumeAt := dl }
     else { s with others := s.others ++ [c] }
-  | .noOp => s
+  | .noOp =>
+    -- t5: a key that does nothing (`XX`, an unmapped position) is still a following non-one-shot
+    -- key: `do_action`'s `NoOp` arm reports it to the one-shot state like every other key
+    if s.active.isEmpty then s
+    else if isPressVariant s.variant then
+      let dl := min s.deadline (t + max d 1)
+      { s with deadline := dl, resumeAt := dl }
+    else { s with others := s.others ++ [c] }
   | _ => { s with silent := true }
 
 def release (t : Nat) (c : Coord) (s : Sp) : Sp :=
